@@ -91,11 +91,11 @@ theorem parseTimePart_pad (h mi s : Nat) (rest : Line) :
   have h1 : isDigit ':' = false := by decide
   simp [parseTimePart, takeExact_pad, expectOneOf, takeDigits_pad2 _ _ _ h1]
 
-theorem strDatetime_eq (t : Civil) :
-    strDatetime t = pad 4 t.y ++ '-' :: (pad 2 t.mo ++ '-' :: (pad 2 t.d ++ ' ' ::
+theorem strNaive_eq (t : Naive) :
+    strNaive t = pad 4 t.y ++ '-' :: (pad 2 t.mo ++ '-' :: (pad 2 t.d ++ ' ' ::
       (pad 2 t.h ++ ':' :: (pad 2 t.mi ++ ':' :: (pad 2 t.s ++
         (if t.us == 0 then [] else '.' :: pad 6 t.us)))))) := by
-  simp only [strDatetime, List.append_assoc, List.cons_append, List.nil_append]
+  simp only [strNaive, List.append_assoc, List.cons_append, List.nil_append]
 
 theorem daysInMonth_le (y m : Nat) : daysInMonth y m ≤ 31 := by
   unfold daysInMonth
@@ -103,10 +103,11 @@ theorem daysInMonth_le (y m : Nat) : daysInMonth y m ≤ 31 := by
   · split <;> omega
   · split <;> omega
 
-theorem getDate_strDatetime (t : Civil) (h : t.valid = true) : getDate (strDatetime t) = .ok t := by
+/-- the naive text is read back by the naive layouts, and it is not the date-only layout that matches -/
+theorem getNaiveL_strNaive (t : Naive) (h : t.valid = true) : getNaiveL (strNaive t) = (.ok t, false) := by
   obtain ⟨y, mo, d, hh, mi, s, us⟩ := t
   have hv := h
-  simp only [Civil.valid, Bool.and_eq_true, decide_eq_true_eq] at hv
+  simp only [Naive.valid, Bool.and_eq_true, decide_eq_true_eq] at hv
   obtain ⟨⟨⟨⟨⟨⟨⟨⟨⟨hy1, hy2⟩, hm1⟩, hm2⟩, hd1⟩, hd2⟩, hh2⟩, hmi⟩, hs⟩, hus⟩ := hv
   have hd3 := daysInMonth_le y mo
   have ey : y % 10000 = y := Nat.mod_eq_of_lt (by omega)
@@ -116,8 +117,8 @@ theorem getDate_strDatetime (t : Civil) (h : t.valid = true) : getDate (strDatet
   have emi : mi % 100 = mi := Nat.mod_eq_of_lt (by omega)
   have es : s % 100 = s := Nat.mod_eq_of_lt (by omega)
   have eus : us % 1000000 = us := Nat.mod_eq_of_lt (by omega)
-  rw [strDatetime_eq]
-  simp only [getDate, parseDatePart_pad, parseTimePart_pad, ey, emo, ed, eh, emi, es]
+  rw [strNaive_eq]
+  simp only [getNaiveL, parseDatePart_pad, parseTimePart_pad, ey, emo, ed, eh, emi, es]
   by_cases h0 : us = 0
   · subst h0
     simp [h]
@@ -128,5 +129,162 @@ theorem getDate_strDatetime (t : Civil) (h : t.valid = true) : getDate (strDatet
       | nil => rw [hp] at hl; simp at hl
       | cons a l => rfl
     simp [hb, takeWhile_all _ (all_pad 6 us), hne, length_pad, natOfDigits_pad, eus, h]
+
+theorem getNaive_strNaive (t : Naive) (h : t.valid = true) : getNaive (strNaive t) = .ok t := by
+  simp [getNaive, getNaiveL_strNaive t h]
+
+theorem pad_two (n : Nat) : pad 2 n = [digitChar (n / 10), digitChar n] := by
+  simp [pad]
+
+theorem pad_six (n : Nat) : pad 6 n = [digitChar (n / 10 / 10 / 10 / 10 / 10), digitChar (n / 10 / 10 / 10 / 10),
+    digitChar (n / 10 / 10 / 10), digitChar (n / 10 / 10), digitChar (n / 10), digitChar n] := by
+  simp [pad]
+
+theorem digitChar_ne (n : Nat) (c : Char) (hc : isDigit c = false) : digitChar n ≠ c := by
+  intro h
+  have := isDigit_digitChar n
+  rw [h, hc] at this
+  cases this
+
+theorem not_mem_pad (k n : Nat) (c : Char) (hc : isDigit c = false) : ¬ c ∈ pad k n := by
+  intro hm
+  have := all_pad k n
+  rw [List.all_eq_true] at this
+  have := this c hm
+  rw [hc] at this
+  cases this
+
+theorem nl_not_mem_strNaive (t : Naive) : ¬ '\n' ∈ strNaive t := by
+  have hd : isDigit '\n' = false := by decide
+  have := fun k n => not_mem_pad k n '\n' hd
+  rw [strNaive_eq]
+  split <;> simp [this]
+
+theorem nl_not_mem_strOffset (o : Int) : ¬ '\n' ∈ strOffset o := by
+  have hd : isDigit '\n' = false := by decide
+  have := fun k n => not_mem_pad k n '\n' hd
+  unfold strOffset
+  split <;> simp [this]
+
+theorem splitOffset_six (body : Line) (sg h1 h2 c m1 m2 : Char)
+    (hn : ¬ '\n' ∈ body ++ [sg, h1, h2, c, m1, m2]) :
+    splitOffset (body ++ [sg, h1, h2, c, m1, m2]) =
+      if (sg == '+' || sg == '-') && isDigit h1 && isDigit h2 && c == ':' && isDigit m1 && isDigit m2 &&
+         endsWithSeconds body then
+        some (body, if sg == '-' then -((natOfDigits [h1, h2] * 60 + natOfDigits [m1, m2] : Nat) : Int)
+          else ((natOfDigits [h1, h2] * 60 + natOfDigits [m1, m2] : Nat) : Int))
+      else none := by
+  have hm2 : m2 ≠ '\n' := by
+    intro h; apply hn; simp [h]
+  have hl : (body ++ [sg, h1, h2, c, m1, m2]).getLast? = some m2 := by simp
+  have hc : (body ++ [sg, h1, h2, c, m1, m2]).contains '\n' = false := by
+    simpa using hn
+  have hlen : (body ++ [sg, h1, h2, c, m1, m2]).length - 6 = body.length := by simp
+  have hlt : ¬ (body ++ [sg, h1, h2, c, m1, m2]).length < 6 := by simp
+  have e1 : (if (body ++ [sg, h1, h2, c, m1, m2]).getLast? == some '\n' then (body ++ [sg, h1, h2, c, m1, m2]).dropLast
+      else body ++ [sg, h1, h2, c, m1, m2]) = body ++ [sg, h1, h2, c, m1, m2] := by
+    rw [hl, if_neg]; simpa using hm2
+  have e2 : (body ++ [sg, h1, h2, c, m1, m2]).take body.length = body := List.take_left' rfl
+  have e3 : (body ++ [sg, h1, h2, c, m1, m2]).drop body.length = [sg, h1, h2, c, m1, m2] := List.drop_left' rfl
+  simp only [splitOffset, e1, hc, hlen, e2, e3]
+  simp
+  intro h; omega
+
+theorem endsWithSeconds_plain (P : Line) (a b : Char) (ha : isDigit a = true) (hb : isDigit b = true) :
+    endsWithSeconds (P ++ [':', a, b]) = true := by
+  simp [endsWithSeconds, ha, hb]
+
+theorem endsWithSeconds_frac (P ds : Line) (a b : Char) (ha : isDigit a = true) (hb : isDigit b = true)
+    (hds : ds.all isDigit = true) (hne : ds ≠ []) :
+    endsWithSeconds (P ++ ':' :: a :: b :: '.' :: ds) = true := by
+  have hr : (P ++ ':' :: a :: b :: '.' :: ds).reverse = ds.reverse ++ '.' :: b :: a :: ':' :: P.reverse := by
+    simp
+  have hall : ds.reverse.all isDigit = true := by simpa using hds
+  have hdot : isDigit '.' = false := by decide
+  have htw := takeWhile_digits ds.reverse hall '.' (b :: a :: ':' :: P.reverse) hdot
+  have hdrop : (ds.reverse ++ '.' :: b :: a :: ':' :: P.reverse).drop ds.reverse.length =
+      '.' :: b :: a :: ':' :: P.reverse := List.drop_left' rfl
+  have hemp : ds.reverse.isEmpty = false := by simpa using hne
+  simp only [endsWithSeconds, hr, htw, hdrop, hemp]
+  simp [ha, hb]
+
+theorem strNaive_zero (t : Naive) (h0 : t.us = 0) :
+    strNaive t = (pad 4 t.y ++ '-' :: (pad 2 t.mo ++ '-' :: (pad 2 t.d ++ ' ' :: pad 2 t.h))) ++
+      [':', digitChar (t.mi / 10), digitChar t.mi, ':', digitChar (t.s / 10), digitChar t.s] := by
+  rw [strNaive_eq]
+  simp [h0, pad_two]
+
+theorem strNaive_nonzero (t : Naive) (h0 : t.us ≠ 0) :
+    strNaive t = (pad 4 t.y ++ '-' :: (pad 2 t.mo ++ '-' :: (pad 2 t.d ++ ' ' :: (pad 2 t.h ++ ':' :: pad 2 t.mi)))) ++
+      ':' :: digitChar (t.s / 10) :: digitChar t.s :: '.' :: pad 6 t.us := by
+  rw [strNaive_eq]
+  simp [h0, pad_two]
+
+theorem endsWithSeconds_strNaive (t : Naive) : endsWithSeconds (strNaive t) = true := by
+  by_cases h0 : t.us = 0
+  · rw [strNaive_zero t h0]
+    have := endsWithSeconds_plain
+      ((pad 4 t.y ++ '-' :: (pad 2 t.mo ++ '-' :: (pad 2 t.d ++ ' ' :: pad 2 t.h))) ++
+        [':', digitChar (t.mi / 10), digitChar t.mi]) (digitChar (t.s / 10)) (digitChar t.s)
+      (isDigit_digitChar _) (isDigit_digitChar _)
+    simpa using this
+  · rw [strNaive_nonzero t h0]
+    apply endsWithSeconds_frac _ _ _ _ (isDigit_digitChar _) (isDigit_digitChar _) (all_pad 6 t.us)
+    intro h
+    have := length_pad 6 t.us
+    rw [h] at this
+    cases this
+
+/-- the naive text carries no UTC offset: RTZ does not match it -/
+theorem splitOffset_strNaive (t : Naive) (h : t.valid = true) : splitOffset (strNaive t) = none := by
+  have _ := h  -- the validity is not needed: no `strNaive` text has an offset
+  have hn := nl_not_mem_strNaive t
+  by_cases h0 : t.us = 0
+  · rw [strNaive_zero t h0] at hn ⊢
+    rw [splitOffset_six _ _ _ _ _ _ _ hn]
+    simp
+  · have e : strNaive t = (pad 4 t.y ++ '-' :: (pad 2 t.mo ++ '-' :: (pad 2 t.d ++ ' ' :: (pad 2 t.h ++ ':' ::
+        (pad 2 t.mi ++ [':', digitChar (t.s / 10), digitChar t.s, '.']))))) ++
+        [digitChar (t.us / 10 / 10 / 10 / 10 / 10), digitChar (t.us / 10 / 10 / 10 / 10),
+          digitChar (t.us / 10 / 10 / 10), digitChar (t.us / 10 / 10), digitChar (t.us / 10), digitChar t.us] := by
+      rw [strNaive_nonzero t h0, pad_six]
+      simp
+    rw [e] at hn ⊢
+    rw [splitOffset_six _ _ _ _ _ _ _ hn]
+    have hp := digitChar_ne (t.us / 10 / 10 / 10 / 10 / 10) '+' (by decide)
+    have hm := digitChar_ne (t.us / 10 / 10 / 10 / 10 / 10) '-' (by decide)
+    simp [hp, hm]
+
+/-- the text of an aware datetime splits into the naive text and the offset -/
+theorem splitOffset_strAware (t : Naive) (o : Int) (h : t.valid = true) (h1 : -1440 < o) (h2 : o < 1440) :
+    splitOffset (strNaive t ++ strOffset o) = some (strNaive t, o) := by
+  have _ := h  -- the validity of the naive part is not needed
+  have hn : ¬ '\n' ∈ strNaive t ++ strOffset o := by
+    simp [nl_not_mem_strNaive, nl_not_mem_strOffset]
+  have e : strOffset o = [(if o < 0 then '-' else '+'), digitChar (o.natAbs / 60 / 10), digitChar (o.natAbs / 60),
+      ':', digitChar (o.natAbs % 60 / 10), digitChar (o.natAbs % 60)] := by
+    simp [strOffset, pad_two]
+  rw [e] at hn ⊢
+  rw [splitOffset_six _ _ _ _ _ _ _ hn]
+  have n1 : natOfDigits [digitChar (o.natAbs / 60 / 10), digitChar (o.natAbs / 60)] = o.natAbs / 60 := by
+    rw [← pad_two, natOfDigits_pad]; omega
+  have n2 : natOfDigits [digitChar (o.natAbs % 60 / 10), digitChar (o.natAbs % 60)] = o.natAbs % 60 := by
+    rw [← pad_two, natOfDigits_pad]; omega
+  have hs : ((if o < 0 then '-' else '+') == '+' || (if o < 0 then '-' else '+') == '-') = true := by
+    split <;> decide
+  simp only [hs, isDigit_digitChar, endsWithSeconds_strNaive, n1, n2, Bool.and_self, beq_self_eq_true, if_true]
+  by_cases ho : o < 0
+  · simp [ho]; omega
+  · simp [ho]; omega
+
+theorem getDate_strDatetime (t : Civil) (h : t.valid = true) : getDate (strDatetime t) = .ok t := by
+  obtain ⟨n, off⟩ := t
+  cases off with
+  | none =>
+    have hv : n.valid = true := by simpa [Civil.valid] using h
+    simp [getDate, strDatetime, splitOffset_strNaive n hv, getNaive_strNaive n hv]
+  | some o =>
+    have hv : n.valid = true ∧ -1440 < o ∧ o < 1440 := by simpa [Civil.valid] using h
+    simp [getDate, strDatetime, splitOffset_strAware n o hv.1 hv.2.1 hv.2.2, getNaiveL_strNaive n hv.1, hv.2.1, hv.2.2]
 
 end TddaVerif.Props.C09.Aux
